@@ -7,6 +7,8 @@ CONSTANTS B = 3
   HoleHi = 57343
   Repl = 65533
   CHUNK = 2
+  STACK = 30
+  CHUNK_STACK = TRUE
   TU_FROM_START = TRUE
   NOTDEF_OWN = TRUE
   Mode = "rect"
@@ -20,5 +22,5 @@ CONSTANTS B = 3
   WideSpaces = {}
   NotdefOn = FALSE
   MaxRect = 2
-INVARIANTS RectOK EmbedOK
+INVARIANTS RectOK EmbedOK ReadableOK
 CHECK_DEADLOCK FALSE
